@@ -83,9 +83,29 @@ class KwOnly(Exception):
   def __init__(self, *, reason):
     super().__init__(reason)
     self.reason = reason
+
+class ZeroOrCode(Exception):
+  """constructible with no argument or with (code, detail), but NOT from its own .args (a 3-tuple)"""
+  def __new__(cls, code=None, detail=''):
+    return super().__new__(cls)
+  def __init__(self, code=None, detail=''):
+    super().__init__()
+    self.args = (code, detail, 'extra')
+    self.code = code
+'''
+# same names (hence same __module__ / __qualname__), different classes: raised FIRST when a case says 'prior'
+ALT_CLASSES = '''
+class OsChild(Exception):
+  pass
+
+class Slotted(Exception):
+  pass
+
+class NeedsArgs(ValueError):
+  pass
 '''
 USER_ARGS = {'NeedsArgs': "(7, 'boom')", 'NeedsNewArgs': "(1, 2)", 'Slotted': "([1, 2],)", 'CustomStr': "('v',)",
-             'WithProperty': "(21,)", 'OsChild': "(13, 'denied')", 'KwOnly': "(reason='why')"}
+             'WithProperty': "(21,)", 'OsChild': "(13, 'denied')", 'KwOnly': "(reason='why')", 'ZeroOrCode': "(5, 'boom')"}
 
 
 def public_attrs(e):
@@ -129,6 +149,9 @@ class ExcEngine(Engine):
     for name in USER_ARGS:
       for depth, via_ref in ((1, False), (3, True)):
         cases.append({'cls': name, 'user': True, 'depth': depth, 'via_ref': via_ref})
+    for name in ('OsChild', 'Slotted', 'NeedsArgs'):
+      for depth in (1, 2):
+        cases.append({'cls': name, 'user': True, 'depth': depth, 'via_ref': depth == 2, 'prior': True})
     for name in ('FileNotFoundError', 'KeyError', 'NeedsArgs'):
       for depth in (1, 2):
         cases.append({'cls': name, 'user': name == 'NeedsArgs', 'depth': depth, 'via_ref': False, 'brace_repr': True})
@@ -155,6 +178,19 @@ class ExcEngine(Engine):
       original.extra_attribute = {'x': 1}
     except AttributeError:
       pass
+
+    if case.get('prior'):
+      # another class with the same module and qualified name went through a configurable before
+      alt = {}
+      exec(ALT_CLASSES, alt)  # pylint: disable=exec-used
+
+      @gin.configurable
+      def prior_raiser():
+        raise alt[case['cls']]('earlier')
+      try:
+        prior_raiser()
+      except Exception:  # pylint: disable=broad-except
+        pass
 
     if case.get('brace_repr'):
       import functools
